@@ -184,13 +184,17 @@ func runC15(c *core.Ctx) {
 			full = cal.Pkg.Pkg.Path() + "." + cal.Name()
 		}
 		switch {
-		case full == "fmt.Sprintf":
-			f, isK := call.Call.Args[0].(*ssa.Const)
+		case full == "fmt.Sprintf", full == "fmt.Fprintf":
+			fa, va := 0, 1
+			if full == "fmt.Fprintf" {
+				fa, va = 1, 2 // (w, format, args...): the text written
+			}
+			f, isK := call.Call.Args[fa].(*ssa.Const)
 			if !isK || constantString(f) != "%010d" {
 				return false, "format is not %010d: " + role(plain, text)
 			}
 			var args []ssa.Value
-			if sl, isS := call.Call.Args[1].(*ssa.Slice); isS {
+			if sl, isS := call.Call.Args[va].(*ssa.Slice); isS {
 				if al, isA := sl.X.(*ssa.Alloc); isA {
 					args = arrayStores(al)
 				}
